@@ -485,6 +485,23 @@ impl<'a> World<'a> {
             )));
         }
 
+        // ---- why the fetcher stopped tracking older network fetches (needed by clause (d) below)
+        for (wf, cause) in &tr.ended {
+            if let Some(w) = self.wfs.get_mut(*wf) {
+                w.ended = Some(cause);
+            }
+            self.rep.probe(&format!("inflight_left:{cause}"));
+        }
+        for (t, wf) in &tr.expired {
+            if let Some(w) = self.wfs.get_mut(*wf) {
+                w.ended = Some("timeout");
+            }
+            if self.dead(t.2) {
+                self.fault("timeout_dead_holder");
+            } else {
+                self.fault("timeout_slow_holder");
+            }
+        }
         if let Call::AddKeys { holder, list } = &call {
             self.check_range_admission(&desc, *holder, list, tr.filtered_len, &q_before, &obs_q, &obs_f, &ret);
         }
@@ -506,23 +523,7 @@ impl<'a> World<'a> {
             }
         }
 
-        // ---- bookkeeping of the simulated network fetches
-        for (wf, cause) in &tr.ended {
-            if let Some(w) = self.wfs.get_mut(*wf) {
-                w.ended = Some(cause);
-            }
-            self.rep.probe(&format!("inflight_left:{cause}"));
-        }
-        for (t, wf) in &tr.expired {
-            if let Some(w) = self.wfs.get_mut(*wf) {
-                w.ended = Some("timeout");
-            }
-            if self.dead(t.2) {
-                self.fault("timeout_dead_holder");
-            } else {
-                self.fault("timeout_slow_holder");
-            }
-        }
+        // ---- the fetches started by this call
         if tr.dropped_with_holder > 0 {
             self.rep.probe_n("queued_dropped_with_failed_holder", tr.dropped_with_holder as u64);
         }
